@@ -251,7 +251,24 @@ def real(body):
 def expand(f, expr, depth=6):
     """Inline uniquely-defined local names inside `expr` (a.b where a = x.y  ->  x.y.b).  Returns a new AST; names that
     are parameters, captured or multiply defined stay as they are."""
-    import copy
+    def clone(n):
+        """structural copy of an AST (fields and positions only; the `_parent` back links would drag the whole module along in copy.deepcopy)"""
+        if isinstance(n, ast.AST):
+            m = type(n)()
+            for fld in n._fields:
+                if hasattr(n, fld):
+                    setattr(m, fld, clone(getattr(n, fld)))
+            for a in ('lineno', 'col_offset', 'end_lineno', 'end_col_offset'):
+                if hasattr(n, a):
+                    setattr(m, a, getattr(n, a))
+            return m
+        if isinstance(n, list):
+            return [clone(x) for x in n]
+        return n
+
+    class _Copy:
+        deepcopy = staticmethod(clone)
+    copy = _Copy
 
     class Sub(ast.NodeTransformer):
         def __init__(self, d):
